@@ -102,6 +102,8 @@ def mechanism(v, dg):
       return c01_diag.K_SELFCONFLICT
     if vw.get("notrun"):
       return c01_diag.K_NOTRUN
+    if dg.get("super_receiver"):
+      return c01_diag.K_SUPER_RECEIVER
     if dg.get("outside_attr"):
       return c01_diag.K_OUTSIDE_ATTR
     if dg.get("closure_ret"):
@@ -210,7 +212,7 @@ def judge(src, trace, res, diag=None):
             amb = c01_diag.ambiguous_store_signature(res.ctx, defs, trace, tree_a, gname, attr, ex_a)
             if amb:
               dg["ambiguous_store"] = amb
-          sites_a = {(q.split('.')[-1], ln) for q, ln, _ in trace["returns"]}
+          sites_a = {(q.split('.')[-1], ln) for q, ln, _, _r in trace["returns"]}
           for callee in c01_diag.attr_store_callees(tree_a, attr, ex_a):
             nrc = c01_diag.notrun_callee_signature(tree_a, callee, ex_a, sites_a)
             if nrc:
@@ -220,7 +222,7 @@ def judge(src, trace, res, diag=None):
           dg["error"] = f"{type(e).__name__}: {e}"
         diag[f"{cname}.{attr}"] = dg
   seen_ret = set()
-  for (qual, line, sh) in trace["returns"]:
+  for (qual, line, sh, recv) in trace["returns"]:
     if "<locals>" in qual or "<lambda>" in qual or "<listcomp>" in qual or "<genexpr>" in qual \
         or "<dictcomp>" in qual or "<setcomp>" in qual:
       continue
@@ -255,12 +257,16 @@ def judge(src, trace, res, diag=None):
             if hits:
               dgr["outside_attr"] = hits
           nrc = c01_diag.notrun_callee_signature(
-              tree_, qual, ex_, {(q.split('.')[-1], ln) for q, ln, _ in trace['returns']})
+              tree_, qual, ex_, {(q.split('.')[-1], ln) for q, ln, _, _r in trace['returns']})
           if nrc:
             dgr["notrun_callee"] = nrc
           cl_ = c01_diag.closure_signature(tree_, {parts[-1]})
           if cl_:
             dgr["closure_ret"] = cl_
+          if len(parts) == 2 and recv and recv != parts[0]:
+            sr = c01_diag.super_receiver_signature(tree_, parts[0], parts[1], recv)
+            if sr:
+              dgr["super_receiver"] = sr
           diag[qual] = dgr
         except Exception as e:  # pylint: disable=broad-except
           diag[qual] = {"error": str(e)}
